@@ -3,7 +3,8 @@
 M: NamingFacts.tla — TLC decides, over all identifiers of <= MaxParts parts, where the case conversions of naming.py
    (and the python / Go variants) are non-injective and how the induced equivalences are ordered.
 S: the TLA+ conversions are cross-checked against the real functions of aas_core_codegen.naming on the universe
-   (a disagreement is a machinery failure: the model of the conversions would aim the generator at the wrong pairs).
+   (a disagreement is recorded in the evidence: the generator may then aim at fewer colliding pairs; the verdicts
+   themselves only use the names the code under test produces).
 G: NamingGen.tla — pairs of distinct identifiers stratified by collision signature x scenario kinds (two classes,
    class + enumeration, two properties, property + method, two literals, two constants, two functions, ...).
 R: harness.run_c21 — names from the targets' own naming functions, outcome of main.execute, declarations parsed from
@@ -27,7 +28,10 @@ def conversions_self_check(ck: core.Check) -> int:
     ck.impl("harness.run_c21_conv", [str(out_p), str(res_p)], timeout=600)
     res = core.read_json(res_p)
     if res["mismatches"]:
-        raise core.MachineryFailure("the TLA+ model of the conversions disagrees with aas_core_codegen.naming: %s" % (res["mismatches"][:3],))
+        # The verdicts of V use the names the code itself produces, so they stay sound when the conversions of the
+        # tree under test differ from the model; only the *aim* of the generator may be off (fewer colliding pairs).
+        # That is recorded, and a run that ends up with no colliding pair at all is vacuous (exit 2) anyway.
+        ck.notes.append("S: %d of %d images differ between Naming.tla and the naming functions of the tree under test, e.g. %s" % (len(res["mismatches"]), res["checked"], res["mismatches"][:3]))
     return res["checked"]
 
 
